@@ -15,7 +15,7 @@
        parameter-declaration: declaration-specifiers declarator | declaration-specifiers abstract-declarator_opt
 
    Not represented: `static` / type qualifiers / `*` inside [ ] (they do not change the array type; Model/Declarator.v
-   has the tokens, Proofs/DeclaratorRefute.v shows what parse.c does with them), K&R identifier lists,
+   has the tokens, Proofs/DeclaratorRefute.v shows that parse.c skips them), K&R identifier lists,
    variable length arrays, _Atomic as a pointer qualifier, attributes. *)
 From Coq Require Import List ZArith Bool.
 From Chibicc Require Import Spec.DeclSyntax.
@@ -206,6 +206,73 @@ Fixpoint alignof (t : ty) : option Z :=
   | TArr _ e => alignof e
   | TFun _ _ _ => None
   end.
+
+(* ------------------------------------------------------------------ an implementation limit (C11 5.2.4.1)
+   An implementation may limit the size of objects.  chibicc keeps sizes in a C int and (since fix fbdf355) rejects,
+   with the diagnostic "array too large", every array derivation WRITTEN in a declarator - parameters included,
+   before their adjustment - whose bound times the element size exceeds INT32_MAX, a zero-sized element counting
+   as one byte.  [oversize d T]: `T d` contains such a derivation.  [elems_ok d T]: every array derivation in `T d`
+   has a complete object type as element type (6.7.6.2p1) - only then is "the element size" defined - and the base
+   types of the parameters are in range. *)
+Definition esize (t : ty) : Z := match sizeof t with Some s => Z.max s 1 | None => 1 end.
+Definition array_too_big (n : option Z) (elem : ty) : bool :=
+  match n with Some k => k * esize elem >? 2147483647 | None => false end.
+Definition is_complete (t : ty) : bool := match sizeof t with Some _ => true | None => false end.
+(* a base type given by numbers ([LAgg]) is itself an object of less than 2 GiB *)
+Definition leaf_in_range (l : leaf) : bool :=
+  match l with LAgg s _ => (0 <=? s) && (s <=? 2147483647) | _ => true end.
+
+Fixpoint oversize (d : decl) (T : ty) : bool :=
+  match d with
+  | DPtr q d' => oversize d' (TPtr q T)
+  | DDirect dd => oversize_dd dd T
+  end
+with oversize_dd (dd : direct) (T : ty) : bool :=
+  match dd with
+  | DIdent _ => false
+  | DParen d => oversize d T
+  | DArray dd' n => array_too_big n T || oversize_dd dd' (TArr n T)
+  | DFunc dd' ps => oversize_params ps || oversize_dd dd' (TFun T (param_types ps) (kind_of ps))
+  end
+with oversize_params (ps : params) : bool :=
+  match ps with
+  | PUnspec => false
+  | PVoid => false
+  | PList l _ => oversize_plist l
+  end
+with oversize_plist (l : plist) : bool :=
+  match l with
+  | POne p => oversize_param p
+  | PCons p l' => oversize_param p || oversize_plist l'
+  end
+with oversize_param (p : param) : bool :=
+  match p with Param b d => oversize d (TLeaf b) end.
+
+Fixpoint elems_ok (d : decl) (T : ty) : bool :=
+  match d with
+  | DPtr q d' => elems_ok d' (TPtr q T)
+  | DDirect dd => elems_ok_dd dd T
+  end
+with elems_ok_dd (dd : direct) (T : ty) : bool :=
+  match dd with
+  | DIdent _ => true
+  | DParen d => elems_ok d T
+  | DArray dd' n => is_complete T && elems_ok_dd dd' (TArr n T)
+  | DFunc dd' ps => elems_ok_params ps && elems_ok_dd dd' (TFun T (param_types ps) (kind_of ps))
+  end
+with elems_ok_params (ps : params) : bool :=
+  match ps with
+  | PUnspec => true
+  | PVoid => true
+  | PList l _ => elems_ok_plist l
+  end
+with elems_ok_plist (l : plist) : bool :=
+  match l with
+  | POne p => elems_ok_param p
+  | PCons p l' => elems_ok_param p && elems_ok_plist l'
+  end
+with elems_ok_param (p : param) : bool :=
+  match p with Param b d => leaf_in_range b && elems_ok d (TLeaf b) end.
 
 (* ------------------------------------------------------------------ which declarators are C11 *)
 
